@@ -4,6 +4,7 @@ import Mathlib.Algebra.Order.BigOperators.Group.Finset
 import Mathlib.Tactic.Linarith
 import Mathlib.Tactic.Ring
 import FeatModel.Lemmas.C01Csr
+import FeatModel.Model.LA.Bcsr
 /-!
 Tier B: the "up to rounding" clause as a theorem about an abstract floating-point arithmetic.
 `FlModel` is the standard model (Higham): `fl(a ∘ b) = (a ∘ b)(1 + δ)`, `|δ| ≤ u`, for `∘ ∈ {+, ·}`.
@@ -25,6 +26,7 @@ structure FlNum (M : FlModel) where
   val : Rat
 
 instance (M : FlModel) : Zero (FlNum M) := ⟨⟨0⟩⟩
+instance (M : FlModel) : One (FlNum M) := ⟨⟨1⟩⟩
 instance (M : FlModel) : Add (FlNum M) := ⟨fun a b => ⟨M.add a.val b.val⟩⟩
 instance (M : FlModel) : Mul (FlNum M) := ⟨fun a b => ⟨M.mul a.val b.val⟩⟩
 
@@ -115,5 +117,222 @@ theorem fl_rowSum_error (M : FlModel) (A : Csr (FlNum M)) (x : Array (FlNum M)) 
   rw [hrs]
   have e : (1 + M.u) ^ ks.length * (M.u + 1) - 1 = (1 + M.u) ^ (ks.length + 1) - 1 := by ring
   simpa [e] using h
+
+/-! ### the generic form: arbitrary term error `τ`, the bound `γ_n = n u / (1 - n u)` -/
+
+/-- `γ_n = n u / (1 - n u)` -/
+def gammaFl (u : Rat) (n : Nat) : Rat := n * u / (1 - n * u)
+
+theorem pow_mul_le_one (u : Rat) (hu : 0 ≤ u) : ∀ n : Nat, (n : Rat) * u < 1 → (1 + u) ^ n * (1 - n * u) ≤ 1
+  | 0, _ => by simp
+  | n + 1, h => by
+    have hn : (n : Rat) * u < 1 := by
+      have : (n : Rat) * u ≤ ((n + 1 : Nat) : Rat) * u := by
+        apply mul_le_mul_of_nonneg_right _ hu
+        exact_mod_cast Nat.le_succ n
+      linarith
+    have ih := pow_mul_le_one u hu n hn
+    have hp : 0 ≤ (1 + u) ^ n := pow_nonneg (by linarith) n
+    have hcast : ((n + 1 : Nat) : Rat) = (n : Rat) + 1 := by push_cast; ring
+    rw [hcast] at h ⊢
+    have key : (1 + u) * (1 - ((n : Rat) + 1) * u) ≤ 1 - (n : Rat) * u := by nlinarith [mul_nonneg hu hu, mul_nonneg (Nat.cast_nonneg (α := Rat) n) (mul_nonneg hu hu)]
+    calc (1 + u) ^ (n + 1) * (1 - ((n : Rat) + 1) * u) = (1 + u) ^ n * ((1 + u) * (1 - ((n : Rat) + 1) * u)) := by ring
+      _ ≤ (1 + u) ^ n * (1 - (n : Rat) * u) := mul_le_mul_of_nonneg_left key hp
+      _ ≤ 1 := ih
+
+/-- `(1+u)^n - 1 ≤ γ_n` whenever `n u < 1` -/
+theorem pow_sub_one_le_gamma (u : Rat) (hu : 0 ≤ u) (n : Nat) (h : (n : Rat) * u < 1) :
+    (1 + u) ^ n - 1 ≤ gammaFl u n := by
+  unfold gammaFl
+  have hd : 0 < 1 - (n : Rat) * u := by linarith
+  rw [le_div_iff₀ hd]
+  have := pow_mul_le_one u hu n h
+  nlinarith
+
+/-- one step with a term that was computed with relative error at most `τ` -/
+theorem fl_step_gen (M : FlModel) (sh s A c t th τ : Rat) (hτ : |th - t| ≤ τ * |t|) (hτ0 : 0 ≤ τ) (hc : τ ≤ c)
+    (hA : 0 ≤ A) (hs : |s| ≤ A) (he : |sh - s| ≤ c * A) :
+    |M.add sh th - (s + t)| ≤ ((1 + M.u) * (c + 1) - 1) * (A + |t|) ∧ |s + t| ≤ A + |t| := by
+  obtain ⟨d2, hd2, e2⟩ := M.add_spec sh th
+  have hu := M.u_nonneg
+  have hc0 : 0 ≤ c := le_trans hτ0 hc
+  refine ⟨?_, le_trans (abs_add_le _ _) (add_le_add hs (le_refl _))⟩
+  rw [e2]
+  have hid : (sh + th) * (1 + d2) - (s + t) = (sh - s) * (1 + d2) + s * d2 + ((th - t) * (1 + d2) + t * d2) := by ring
+  rw [hid]
+  have h12 : |1 + d2| ≤ 1 + M.u := le_trans (abs_add_le _ _) (by rw [abs_one]; linarith)
+  have h1 : |(sh - s) * (1 + d2)| ≤ c * A * (1 + M.u) := by
+    rw [abs_mul]; exact mul_le_mul he h12 (abs_nonneg _) (mul_nonneg hc0 hA)
+  have h2 : |s * d2| ≤ A * M.u := by
+    rw [abs_mul]; exact mul_le_mul hs hd2 (abs_nonneg _) hA
+  have habs : 0 ≤ |t| := abs_nonneg _
+  have h3 : |(th - t) * (1 + d2) + t * d2| ≤ |t| * (τ * (1 + M.u) + M.u) := by
+    have a1 : |(th - t) * (1 + d2)| ≤ τ * |t| * (1 + M.u) := by
+      rw [abs_mul]; exact mul_le_mul hτ h12 (abs_nonneg _) (mul_nonneg hτ0 habs)
+    have a2 : |t * d2| ≤ |t| * M.u := by
+      rw [abs_mul]; exact mul_le_mul_of_nonneg_left hd2 habs
+    calc |(th - t) * (1 + d2) + t * d2| ≤ |(th - t) * (1 + d2)| + |t * d2| := abs_add_le _ _
+      _ ≤ τ * |t| * (1 + M.u) + |t| * M.u := by linarith
+      _ = |t| * (τ * (1 + M.u) + M.u) := by ring
+  have key : c * A * (1 + M.u) + A * M.u + |t| * (τ * (1 + M.u) + M.u) ≤ ((1 + M.u) * (c + 1) - 1) * (A + |t|) := by
+    have : |t| * (τ * (1 + M.u)) ≤ |t| * (c * (1 + M.u)) :=
+      mul_le_mul_of_nonneg_left (mul_le_mul_of_nonneg_right hc (by linarith)) habs
+    nlinarith [this]
+  calc |(sh - s) * (1 + d2) + s * d2 + ((th - t) * (1 + d2) + t * d2)|
+      ≤ |(sh - s) * (1 + d2)| + |s * d2| + |(th - t) * (1 + d2) + t * d2| := by
+        linarith [abs_add_le ((sh - s) * (1 + d2) + s * d2) ((th - t) * (1 + d2) + t * d2),
+          abs_add_le ((sh - s) * (1 + d2)) (s * d2)]
+    _ ≤ c * A * (1 + M.u) + A * M.u + |t| * (τ * (1 + M.u) + M.u) := by linarith
+    _ ≤ _ := key
+
+/-- **the generic accumulation lemma** shared by every kernel loop: `acc ← fl(acc + t̂_k)` over any index list, where the
+    term `t̂_k` approximates `t_k` with relative error `τ`: after `n` terms the error is `≤ ((1+u)^n (c+1) - 1)·Σ|t_k|` -/
+theorem fl_fold_gen (M : FlModel) {ι : Type} (t th : ι → Rat) (τ : Rat) (hτ0 : 0 ≤ τ)
+    (hτ : ∀ k, |th k - t k| ≤ τ * |t k|) : ∀ (L : List ι) (sh s A c : Rat), τ ≤ c → 0 ≤ A → |s| ≤ A →
+    |sh - s| ≤ c * A →
+    |L.foldl (fun acc k => M.add acc (th k)) sh - (s + (L.map t).sum)|
+      ≤ ((1 + M.u) ^ L.length * (c + 1) - 1) * (A + (L.map fun k => |t k|).sum)
+  | [], sh, s, A, c, _, _, _, he => by simpa using he
+  | k :: L, sh, s, A, c, hc, hA, hs, he => by
+    obtain ⟨g1, g2⟩ := fl_step_gen M sh s A c (t k) (th k) τ (hτ k) hτ0 hc hA hs he
+    have hu := M.u_nonneg
+    have hc' : τ ≤ (1 + M.u) * (c + 1) - 1 := by nlinarith [le_trans hτ0 hc]
+    have ih := fl_fold_gen M t th τ hτ0 hτ L (M.add sh (th k)) (s + t k) (A + |t k|)
+      ((1 + M.u) * (c + 1) - 1) hc' (add_nonneg hA (abs_nonneg _)) g2 g1
+    simp only [List.foldl_cons, List.map_cons, List.sum_cons, List.length_cons]
+    have e1 : s + (t k + (L.map t).sum) = s + t k + (L.map t).sum := by ring
+    have e2 : A + (|t k| + (L.map fun k => |t k|).sum) = A + |t k| + (L.map fun k => |t k|).sum := by ring
+    have e3 : (1 + M.u) ^ (L.length + 1) * (c + 1) - 1 = (1 + M.u) ^ L.length * ((1 + M.u) * (c + 1) - 1 + 1) - 1 := by ring
+    rw [e1, e2, e3]
+    exact ih
+
+theorem mul_term_error (M : FlModel) (a b : Rat) : |M.mul a b - a * b| ≤ M.u * |a * b| := by
+  obtain ⟨d, hd, e⟩ := M.mul_spec a b
+  rw [e]
+  have : a * b * (1 + d) - a * b = a * b * d := by ring
+  rw [this, abs_mul, mul_comm]
+  exact mul_le_mul_of_nonneg_right hd (abs_nonneg _)
+
+/-- the row loop `sum = 0; for k in [s, e): sum += a_k * b_k` that the CSR, CSCR, dense and banded kernels share, run in the
+    floating-point arithmetic `M`: **`|fl(Σ a_k b_k) − Σ a_k b_k| ≤ γ_{n+1}·Σ|a_k||b_k|`**, `n = e − s`, `(n+1)u < 1` -/
+theorem fl_foldRange_error (M : FlModel) (a b : Nat → FlNum M) (s e : Nat) (hn : ((e - s + 1 : Nat) : Rat) * M.u < 1) :
+    |(foldRange s e (fun sum k => sum + a k * b k) 0).val - ∑ k ∈ Finset.Ico s e, (a k).val * (b k).val|
+      ≤ gammaFl M.u (e - s + 1) * ∑ k ∈ Finset.Ico s e, |(a k).val| * |(b k).val| := by
+  have hfold : ∀ (L : List Nat) (acc : FlNum M),
+      (L.foldl (fun sum k => sum + a k * b k) acc).val
+        = L.foldl (fun acc k => M.add acc (M.mul (a k).val (b k).val)) acc.val := by
+    intro L
+    induction L with
+    | nil => intro acc; rfl
+    | cons k L ih => intro acc; rw [List.foldl_cons, List.foldl_cons, ih]; rfl
+  have h := fl_fold_gen M (fun k => (a k).val * (b k).val) (fun k => M.mul (a k).val (b k).val) M.u M.u_nonneg
+    (fun k => mul_term_error M _ _) (List.range' s (e - s)) 0 0 0 M.u (le_refl _) (le_refl _) (by simp) (by simp)
+  have hsum : ∀ (f : Nat → Rat), ((List.range' s (e - s)).map f).sum = ∑ k ∈ Finset.Ico s e, f k := by
+    intro f
+    have := foldl_range'_add f (e - s) s 0
+    rw [zero_add, ← Finset.sum_Ico_eq_sum_range] at this
+    rw [← this]
+    generalize List.range' s (e - s) = L
+    have : ∀ (L : List Nat) (acc : Rat), L.foldl (fun acc k => acc + f k) acc = acc + (L.map f).sum := by
+      intro L
+      induction L with
+      | nil => intro acc; simp
+      | cons k L ih => intro acc; rw [List.foldl_cons, ih, List.map_cons, List.sum_cons]; ring
+    rw [this L 0, zero_add]
+  unfold foldRange
+  rw [hfold]
+  simp only [List.length_range', zero_add] at h
+  rw [hsum, hsum] at h
+  have e1 : (1 + M.u) ^ (e - s) * (M.u + 1) - 1 = (1 + M.u) ^ (e - s + 1) - 1 := by ring
+  rw [e1] at h
+  have hg := pow_sub_one_le_gamma M.u M.u_nonneg (e - s + 1) hn
+  have hnn : 0 ≤ ∑ k ∈ Finset.Ico s e, |(a k).val * (b k).val| := Finset.sum_nonneg (fun _ _ => abs_nonneg _)
+  have habs : ∑ k ∈ Finset.Ico s e, |(a k).val * (b k).val| = ∑ k ∈ Finset.Ico s e, |(a k).val| * |(b k).val| :=
+    Finset.sum_congr rfl (fun k _ => abs_mul _ _)
+  rw [← habs]
+  exact le_trans h (mul_le_mul_of_nonneg_right hg hnn)
+
+theorem mul1_term_error (M : FlModel) (v x : Rat) :
+    |M.mul (M.mul 1 v) x - v * x| ≤ (2 * M.u + M.u * M.u) * |v * x| := by
+  obtain ⟨d1, hd1, e1⟩ := M.mul_spec 1 v
+  obtain ⟨d2, hd2, e2⟩ := M.mul_spec (M.mul 1 v) x
+  have hu := M.u_nonneg
+  rw [e2, e1]
+  have : 1 * v * (1 + d1) * x * (1 + d2) - v * x = v * x * (d1 + d2 + d1 * d2) := by ring
+  rw [this, abs_mul, mul_comm]
+  apply mul_le_mul_of_nonneg_right _ (abs_nonneg _)
+  have h12 : |d1 * d2| ≤ M.u * M.u := by rw [abs_mul]; exact mul_le_mul hd1 hd2 (abs_nonneg _) hu
+  calc |d1 + d2 + d1 * d2| ≤ |d1 + d2| + |d1 * d2| := abs_add_le _ _
+    _ ≤ |d1| + |d2| + |d1 * d2| := by linarith [abs_add_le d1 d2]
+    _ ≤ 2 * M.u + M.u * M.u := by linarith
+
+/-- the block-row loop of `bcsr_generic` (`Bcsr.blockRowSum`: `Tiny` `add_mat_vec_mult` with its `alpha = 1` factor, i.e.
+    two multiplications per term, accumulated over all blocks of the row and all `bw` components) in floating point:
+    `|fl − exact| ≤ γ_{N+2}·Σ|a||x|`, `N = (blocks of the row)·bw` -/
+theorem fl_bcsr_blockRow_error (M : FlModel) (A : Bcsr (FlNum M)) (x : Array (FlNum M)) (row h : Nat)
+    (hn : ((((A.rowPtr.getD (row + 1) 0 - A.rowPtr.getD row 0) * A.bw + 2 : Nat)) : Rat) * M.u < 1) :
+    let ks := (List.range' (A.rowPtr.getD row 0) (A.rowPtr.getD (row + 1) 0 - A.rowPtr.getD row 0)).flatMap
+      fun i => (List.range' 0 (A.bw - 0)).map fun w => (i, w)
+    let t := fun (p : Nat × Nat) => (A.val.getD (p.1 * A.bh * A.bw + h * A.bw + p.2) 0).val
+      * (x.getD (A.colInd.getD p.1 0 * A.bw + p.2) 0).val
+    |(A.blockRowSum x row h).val - (ks.map t).sum|
+      ≤ gammaFl M.u ((A.rowPtr.getD (row + 1) 0 - A.rowPtr.getD row 0) * A.bw + 2) * (ks.map fun p => |t p|).sum := by
+  intro ks t
+  let th := fun (p : Nat × Nat) => M.mul (M.mul 1 (A.val.getD (p.1 * A.bh * A.bw + h * A.bw + p.2) 0).val)
+      (x.getD (A.colInd.getD p.1 0 * A.bw + p.2) 0).val
+  have hu := M.u_nonneg
+  have hτ0 : 0 ≤ 2 * M.u + M.u * M.u := by nlinarith
+  have hfold : (A.blockRowSum x row h).val = ks.foldl (fun acc p => M.add acc (th p)) 0 := by
+    unfold Bcsr.blockRowSum foldRange
+    have inner : ∀ (L : List Nat) (i : Nat) (acc : FlNum M),
+        (L.foldl (fun sum w => sum + 1 * A.val.getD (i * A.bh * A.bw + h * A.bw + w) 0
+          * x.getD (A.colInd.getD i 0 * A.bw + w) 0) acc).val
+          = (L.map fun w => (i, w)).foldl (fun acc p => M.add acc (th p)) acc.val := by
+      intro L i
+      induction L with
+      | nil => intro acc; rfl
+      | cons w L ih => intro acc; rw [List.foldl_cons, List.map_cons, List.foldl_cons, ih]; rfl
+    have outer : ∀ (L : List Nat) (acc : FlNum M),
+        (L.foldl (fun sum i => (List.range' 0 (A.bw - 0)).foldl (fun sum w => sum + 1 * A.val.getD (i * A.bh * A.bw + h * A.bw + w) 0
+          * x.getD (A.colInd.getD i 0 * A.bw + w) 0) sum) acc).val
+          = (L.flatMap fun i => (List.range' 0 (A.bw - 0)).map fun w => (i, w)).foldl (fun acc p => M.add acc (th p)) acc.val := by
+      intro L
+      induction L with
+      | nil => intro acc; rfl
+      | cons i L ih =>
+        intro acc
+        rw [List.foldl_cons, ih, List.flatMap_cons, List.foldl_append, inner]
+    exact outer _ 0
+  have hlen : ks.length = (A.rowPtr.getD (row + 1) 0 - A.rowPtr.getD row 0) * A.bw := by
+    have : ∀ (L : List Nat), (L.flatMap fun i => (List.range' 0 (A.bw - 0)).map fun w => (i, w)).length = L.length * A.bw := by
+      intro L
+      induction L with
+      | nil => simp
+      | cons i L ih => rw [List.flatMap_cons, List.length_append, ih]; simp; ring
+    rw [this]; simp
+  have h := fl_fold_gen M t th (2 * M.u + M.u * M.u) hτ0 (fun p => mul1_term_error M _ _) ks 0 0 0
+    (2 * M.u + M.u * M.u) (le_refl _) (le_refl _) (by simp) (by simp)
+  rw [hfold]
+  simp only [zero_add] at h
+  have e1 : (1 + M.u) ^ ks.length * (2 * M.u + M.u * M.u + 1) - 1 = (1 + M.u) ^ (ks.length + 2) - 1 := by ring
+  rw [e1, hlen] at h
+  have hg := pow_sub_one_le_gamma M.u hu _ hn
+  have hnn : 0 ≤ (ks.map fun p => |t p|).sum := by
+    apply List.sum_nonneg
+    intro v hv
+    obtain ⟨p, _, rfl⟩ := List.mem_map.mp hv
+    exact abs_nonneg _
+  exact le_trans h (mul_le_mul_of_nonneg_right hg hnn)
+
+/-- dropping `alpha·(A x)_i` for `|alpha| < eps` stays inside `eps·(|A||x|)_i` -/
+theorem tiny_envelope (al eps yi : Rat) (hal : |al| < eps) (e xv : Nat → Rat) (n : Nat) :
+    |(yi + al * ∑ k ∈ Finset.range n, e k * xv k) - yi| ≤ eps * ∑ k ∈ Finset.range n, |e k| * |xv k| := by
+  rw [add_sub_cancel_left, abs_mul]
+  have h1 : |∑ k ∈ Finset.range n, e k * xv k| ≤ ∑ k ∈ Finset.range n, |e k| * |xv k| := by
+    refine le_trans (Finset.abs_sum_le_sum_abs _ _) (le_of_eq ?_)
+    apply Finset.sum_congr rfl
+    intro k _
+    exact abs_mul _ _
+  exact mul_le_mul (le_of_lt hal) h1 (abs_nonneg _) (le_of_lt (lt_of_le_of_lt (abs_nonneg _) hal))
 
 end FeatModel.LA
